@@ -318,14 +318,21 @@ def _run_perms(call, templates, snap, oracle, ctx, tag, where, rows, ra, dec, ex
 
 
 # ---------------------------------------------------------------------------------------------------------------
+def _limits(tier):
+    """largest subset size per (dbscan flux variant), for the elliptical variant and for the command line"""
+    if tier == "quick":
+        return dict(distinct=5, equal=4, dup=3), 4, 2
+    return dict(distinct=6, equal=6, dup=5), 5, 5
+
+
 def axes(tier, seed):
-    nd = 5 if tier == "quick" else 6
-    ne = 4 if tier == "quick" else 5
-    nc = 2 if tier == "quick" else 5
+    fl, ne, nc = _limits(tier)
+    nd = max(fl.values())
     return dict(lattice=dict(x_offsets_eps=XOFF, y_offsets_eps=YOFF, rotation_deg=17.0 + core.seed_shift(seed, 1, 20.0)),
                 locations=LOCS, eps_arcmin=EPS_ARCMIN, flux=FLUXES,
-                dbscan_subsets="all non-empty subsets of <= %d of 9 points (%d); dup variant on subsets of <= %d points" % (
-                    nd, sum(len(_masks(n)) for n in range(1, nd + 1)), nd - 1),
+                dbscan_subsets={k: "all non-empty subsets of <= %d of 9 points (%d)%s" % (
+                    v, sum(len(_masks(n)) for n in range(1, v + 1)), " + one duplicated row" if k == "dup" else "")
+                    for k, v in fl.items()},
                 permutations="all row orders (<= %d!) + the identity order as a numpy object array" % nd,
                 ellip_subsets="all non-empty subsets of <= %d points" % ne, ellip_dist=["norm_dist", "sky_dist"],
                 ellip_flux=["distinct", "equal"],
@@ -335,16 +342,15 @@ def axes(tier, seed):
 
 
 def cases(tier, seed):
-    nd = 5 if tier == "quick" else 6
-    ne = 4 if tier == "quick" else 5
-    nc = 2 if tier == "quick" else 5
+    fl, ne, nc = _limits(tier)
+    nd = max(fl.values())
     for m in range(1, 64):
         yield "resize", dict(rows=m)
     for n in range(1, nd + 1):
         for mask in _masks(n):
             for loc in LOCS:
                 for eps in EPS_ARCMIN:
-                    yield "dbscan", dict(mask=mask, loc=loc, eps=eps, dup=bool(n < nd))
+                    yield "dbscan", dict(mask=mask, loc=loc, eps=eps, flux=[f for f in FLUXES if n <= fl[f]])
                     if n <= ne:
                         yield "ellip", dict(mask=mask, loc=loc, eps=eps)
                     if n <= nc:
@@ -361,9 +367,7 @@ def ev_dbscan(case, ctx):
     eps_deg = eps / 60.0
     # the conversion both callers apply (AeReg.main and SourceFinder.priorized_fit_islands)
     eps_chord = np.sin(np.radians(eps / 60))
-    for flux in FLUXES:
-        if flux == "dup" and not case.get("dup", True):
-            continue
+    for flux in case.get("flux", FLUXES):
         rows = _rows(mask, flux)
         templates = _templates(rows, ra, dec, 30.0)
         snap = _snapshot(templates)
@@ -465,7 +469,7 @@ def ev_cli(case, ctx):
         byisl = {}
         for s in flat:
             byisl.setdefault(s.island, []).append(s)
-        snap_t = {u: dict(v) for u, v in snap.items()}
+        snap_t = {u: {k: x for k, x in v.items() if k in names} for u, v in snap.items()}   # the table columns
         probs, part = _analyse(list(byisl.values()), snap_t)
         bad = False
         for cls, msg in probs:
@@ -520,7 +524,7 @@ def ev_resize(case, ctx):
                 ctx.violation("resize(%s) on rows %r (order %r): %s" % (
                     tag, [(templates[i][2], templates[i][0].a, templates[i][0].b, templates[i][0].pa, templates[i][0].psf_a,
                            templates[i][0].psf_b) for i in perm], list(perm), msg),
-                    "resize_%s|%s,first=%s" % (cls, where, templates[perm[0]][2]))
+                    "resize_%s|%s" % (cls, tag if cls.endswith("raise") else "%s,first=%s" % (where, templates[perm[0]][2])))
             try:
                 out = cluster.resize(cat, ratio=ratio) if ratio is not None else cluster.resize(cat)
                 out = list(out)
